@@ -11,6 +11,7 @@ triangles), vh stl-random (seeded, arbitrary float values judged on bit patterns
 """
 import json
 import os
+import random
 
 from checks.objfam import judge_lines
 from vlib import core
@@ -51,10 +52,9 @@ def collect_cases(ctx, vh):
         add(*_tlc_gen(ctx, "gen-meshsim", "StlGenMeshSim.cfg", simulate="num=30", depth=12), "meshsim")
         add(*_tlc_gen(ctx, "gen-recs", "StlGenRecs.cfg"), "recsgen")
     else:
-        add(*_tlc_gen(ctx, "gen-mesh", "StlGenMesh.cfg"), "meshgen")
-        add(*_tlc_gen(ctx, "gen-mesh4", "StlGenMesh4Quick.cfg"), "meshgen_nv45")
-        add(*_tlc_gen(ctx, "gen-meshsim", "StlGenMeshSim.cfg", simulate="num=1500", depth=12), "meshsim")
-        add(*_tlc_gen(ctx, "gen-recs", "StlGenRecs4.cfg"), "recsgen")
+        add(*_tlc_gen(ctx, "gen-mesh", "StlGenMeshBig.cfg"), "meshgen")
+        add(*_tlc_gen(ctx, "gen-meshsim", "StlGenMeshSim.cfg", simulate="num=3000", depth=12), "meshsim")
+        add(*_tlc_gen(ctx, "gen-recs", "StlGenRecs5.cfg"), "recsgen")
     seen, uniq = set(), []
     for c in cases:
         k = _key(c)
@@ -63,12 +63,14 @@ def collect_cases(ctx, vh):
             uniq.append(c)
     cases = uniq
     d = ctx.scratch("rnd")
-    nsw, nsr, maxtris = (120, 120, 60) if tier == "quick" else (3000, 3000, 200)
+    nsw, nsr, maxtris = (120, 120, 60) if tier == "quick" else (12000, 12000, 200)
     core.run_vh(vh, ["stl-random", "-out", os.path.join(d, "r.ndjson"), "-seed", str(seed),
                      "-nsw", str(nsw), "-nsr", str(nsr), "-maxtris", str(maxtris)])
     rnd = core.read_ndjson(os.path.join(d, "r.ndjson"))
     notes["random_cases"] = len(rnd)
-    return cases + rnd, notes
+    cases += rnd
+    random.Random(seed).shuffle(cases)      # lines are independent; shuffling balances the judge's shards
+    return cases, notes
 
 
 def execute_and_judge(ctx, vh, cases, name="main", keep=None):
@@ -179,7 +181,7 @@ def run_family(ctx, prefix="C07"):
                 "every list of <=%d records from 6 templates), TLC -simulate walks (4 triangles), seeded recorder "
                 "(arbitrary floats, up to %d triangles); distinct by mesh / record list; non-trivial: >=1 triangle and "
                 "a non-identity index pattern, or >=1 record"
-                % ("" if ctx.tier == "quick" else "..4", 3 if ctx.tier == "quick" else 4, ctx.extra["max_triangles"]))
+                % ("" if ctx.tier == "quick" else "..5", 3 if ctx.tier == "quick" else 5, ctx.extra["max_triangles"]))
     for c in (cases[5], cases[-1]):
         ctx.sample({"k": c["k"], "tag": c.get("tag"),
                     "shape": c.get("seeded") or (c["mesh"]["idx"] if c["k"] == "sw" else [r["n"] for r in c["gen"]])})
